@@ -1107,8 +1107,36 @@ def c10(ctx: Ctx) -> None:
     if guards:
         maxattr = guards[0][2]
     guard_edge = lambda e: any(e.src is b and e.label == pol for b, pol, _ in guards)
+    # bulk growth through a staging list (`ready = []; ready.extend(islice(it, limit)); ...; L.extend(ready)`, usually a
+    # helper that returns `(ready, filled)`): the elements are taken where the staging list is filled - that node stands
+    # for the growth when paths *from* a growth are followed (its exception edge is the queue running dry before the limit)
+    staging: Dict[int, Tuple[Node, ast.AST]] = {}
     for gr in growths:
-        srcs = [birth] + [x for x in growths]
+        if gr.kind == 'call' and gr.ast.func.attr == 'extend' and gr.ast.args:
+            a0 = resolve(g, gr, gr.ast.args[0], keep=(L,))
+            if isinstance(a0, ast.Name) and a0.id != L:
+                R_ = a0.id
+                births_ = [n for n in g.nodes if n.kind == 'store_name' and n.meta['name'] == R_]
+                for _ in range(3):      # the list as returned by an inlined helper: `ready = ready_1` on each of its returns
+                    vs_ = {n.meta['value'].id if isinstance(n.meta.get('value'), ast.Name) else None for n in births_}
+                    if len(vs_) == 1 and None not in vs_:
+                        R_ = vs_.pop()
+                        births_ = [n for n in g.nodes if n.kind == 'store_name' and n.meta['name'] == R_]
+                    else:
+                        break
+                fills_ = [n for n in g.nodes if n.kind == 'call' and isinstance(n.ast.func, ast.Attribute) and isinstance(n.ast.func.value, ast.Name)
+                          and n.ast.func.value.id == R_ and n.ast.func.attr in ('append', 'extend', 'insert', '__iadd__')]
+                fresh_ = len(births_) == 1 and isinstance(births_[0].meta.get('value'), ast.List) and not births_[0].meta['value'].elts
+                if fresh_ and len(fills_) == 1 and fills_[0].ast.func.attr == 'extend' and fills_[0].ast.args:
+                    src_ = resolve(g, fills_[0], fills_[0].ast.args[0], keep=(L,))
+                    if isinstance(src_, ast.Call) and call_name(g, src_) == 'itertools.islice':
+                        staging[gr.id] = (fills_[0], src_)
+    for gr in growths:
+        srcs = [birth] + [staging[x.id][0] if x.id in staging else x for x in growths]
+        if gr.id in staging:
+            # (its own staging node leads straight to it: one growth in two steps; through the loop it passes the guard)
+            srcs = [s_ for s_ in srcs if s_ is not staging[gr.id][0]]
+            own_ = staging[gr.id][0]
         # a path from the birth or from any growth to this growth that avoids every guard edge
         w = None
         for s in srcs:
@@ -1120,6 +1148,8 @@ def c10(ctx: Ctx) -> None:
                   construct=construct_key(r.assemble.qualname, 'unguarded growth', gr.ast))
         if gr.kind == 'call' and gr.ast.func.attr == 'extend':
             a = resolve(g, gr, gr.ast.args[0], keep=(L,)) if gr.ast.args else None
+            if gr.id in staging:
+                a = staging[gr.id][1]
             ok = False
             why = 'bulk growth is not an islice bounded by max_batch_size - len(list)'
             if isinstance(a, ast.Call) and call_name(g, a) == 'itertools.islice' and len(a.args) == 2:
